@@ -300,7 +300,7 @@ pub fn run(ctx: &Ctx, st: &mut Stats, round: bool) {
         }
     });
     // ---- seeded random timestamps
-    let nr = ctx.tier.pick(500, 1_000_000, 20_000_000);
+    let nr = ctx.tier.pick(500, 1_000_000, ctx.big(20_000_000, 300_000_000));
     ctx.par(st, "random/timestamps x 12 units", false, 0, nr, |st, _, rng| {
         let x = rng.range_i64(TS_MIN, TS_MAX);
         let (n, tod) = (x.div_euclid(DAY_US), x.rem_euclid(DAY_US));
